@@ -777,6 +777,12 @@ func genHCase(r *drv.Rng) HCase {
 		c.Steps = append(c.Steps, cfg("ni3")...)
 		c.Steps = append(c.Steps, body[k:]...)
 	}
+	if r.Chance(1, 3) && len(c.Steps) > 6 {
+		// the configuration is applied again later on: AddNetworkInstance of an instance that exists (refused: nothing
+		// changes, nothing is to be notified)
+		k := len(c.Steps)/2 + r.Intn(len(c.Steps)/2)
+		c.Steps = append(append(append([]RStep{}, c.Steps[:k]...), RStep{K: "addni", NI: drv.Pick(r, 2, 3, 2, 3, 1)}), c.Steps[k:]...)
+	}
 	if r.Chance(1, 10) { // registering the same hook again is harmless
 		k := r.Intn(len(c.Steps) + 1)
 		c.Steps = append(append(append([]RStep{}, c.Steps[:k]...), RStep{K: "hook"}), c.Steps[k:]...)
